@@ -1141,7 +1141,10 @@ class Fxp():
         return val
 
     def _round(self, val, method='floor'):
-        if isinstance(val, int) or np.issubdtype(np.array(val).dtype, np.integer) or np.issubdtype(np.array(val).dtype, np.object_):
+        if isinstance(val, np.ndarray) and val.dtype == object and val.ndim > 0:
+            # arrays of python numbers: integers are kept, floats are rounded one by one by the same rule
+            rval = np.array([v if isinstance(v, int) else self._round(v, method=method) for v in val.flatten()], dtype=object).reshape(val.shape)
+        elif isinstance(val, int) or np.issubdtype(np.array(val).dtype, np.integer) or np.issubdtype(np.array(val).dtype, np.object_):
             rval = val
         elif method == 'around':
             rval = np.around(val)
